@@ -15,5 +15,5 @@ CHECK = {
  'assumptions': COMMON_ASSUME + ['gosensors stand-in serves the fake hwmon chip', 'each operation runs in one process here although it is a separate process in reality; all cross-operation state is in the database file'],
  'level_text': 'all operation sequences up to the depth bound with state deduplication on the real database content; every transition executes the real command / start-up code',
  'level_note': 'bounded depth; one fan per configuration; cmd fans limited to depth 2 in quick (each sweep spawns 512 processes)',
- 'runs': [{'pkg': 'cmd/fan', 'test': 'TestVX_C15', 'shards_quick': 10, 'shards_thorough': 12, 'gomaxprocs': '2'}],
+ 'runs': [{'pkg': 'cmd/fan', 'test': 'TestVX_C15', 'shards_quick': 12, 'shards_thorough': 14, 'gomaxprocs': '2'}],
 }
